@@ -18,11 +18,13 @@ pub open spec fn fdiv(x: f64, y: f64) -> f64 { x.div_spec(y) }
 pub open spec fn feq(x: f64, y: f64) -> bool { x.eq_spec(&y) }
 pub open spec fn flt(x: f64, y: f64) -> bool { x.partial_cmp_spec(&y) == Some(Ordering::Less) }
 pub open spec fn fgt(x: f64, y: f64) -> bool { x.partial_cmp_spec(&y) == Some(Ordering::Greater) }
+// (fle/fge are written with `matches`, flt/fgt with `==`: the same shapes vstd uses in the specifications of the
+//  executable operators; other shapes need a typing fact Verus does not emit for f64 struct fields)
 pub open spec fn fle(x: f64, y: f64) -> bool {
-    x.partial_cmp_spec(&y) == Some(Ordering::Less) || x.partial_cmp_spec(&y) == Some(Ordering::Equal)
+    x.partial_cmp_spec(&y) matches Some(Ordering::Less | Ordering::Equal)
 }
 pub open spec fn fge(x: f64, y: f64) -> bool {
-    x.partial_cmp_spec(&y) == Some(Ordering::Greater) || x.partial_cmp_spec(&y) == Some(Ordering::Equal)
+    x.partial_cmp_spec(&y) matches Some(Ordering::Greater | Ordering::Equal)
 }
 /// IEEE |x|
 pub uninterp spec fn fabs(x: f64) -> f64;
